@@ -86,7 +86,7 @@ type Specs struct {
 }
 
 var clauseKw = map[string]bool{"requires": true, "ensures": true, "modifies": true, "invariant": true,
-	"decreases": true, "ghost": true, "property": true, "attr": true, "assume": true, "havoc": true, "axiom": true, "symmetric": true}
+	"decreases": true, "ghost": true, "property": true, "attr": true, "assume": true, "havoc": true, "axiom": true, "symmetric": true, "keeps": true}
 
 var headRe = regexp.MustCompile(`^(func|functype|iface|extern|pred|fn|ghost|inlinepkg|opaque|modset|globalinv|confined|maporder)\b`)
 
